@@ -1,1 +1,58 @@
-From AwkV Require Import Layout.
+(** C09 property theorems (proofs in Proofs_C09.v): what pad_none / fill_none specifications do,
+    and that the option encodings are interchangeable. *)
+From AwkV Require Import Layout Ops_Struct Ops_Option Carry Proofs_C09.
+
+Theorem pad_gives_max_len_target : forall target t l out,
+  rpad_f target t l = Ok (VList out) -> zlen out = Z.max (zlen l) target.
+Proof. exact rpad_length. Qed.
+Print Assumptions pad_gives_max_len_target.
+
+Theorem pad_appends_only_none : forall target t l,
+  exists k, rpad_f target t l = Ok (VList (l ++ repeat VNone k)) /\ Z.of_nat k = Z.max 0 (target - zlen l).
+Proof. exact rpad_prefix_and_suffix. Qed.
+Print Assumptions pad_appends_only_none.
+
+Theorem pad_clip_gives_exactly_target : forall target t l out,
+  0 <= target -> rpadclip_f target t l = Ok (VList out) -> zlen out = target.
+Proof. exact rpadclip_length. Qed.
+Print Assumptions pad_clip_gives_exactly_target.
+
+Theorem pad_clip_is_prefix_then_none : forall target t l,
+  0 <= target ->
+  rpadclip_f target t l =
+  Ok (VList (if target <=? zlen l then firstn (Z.to_nat target) l
+             else l ++ repeat VNone (Z.to_nat (target - zlen l)))).
+Proof. exact rpadclip_is_prefix_then_none. Qed.
+Print Assumptions pad_clip_is_prefix_then_none.
+
+Theorem fill_replaces_exactly_none : forall v0 t,
+  fillna_v v0 (TOpt t) VNone = Ok v0 /\ (forall v, v <> VNone -> fillna_v v0 (TOpt t) v = Ok v).
+Proof. exact (fun v0 t => conj (fillna_replaces_none v0 t) (fillna_keeps_present v0 t)). Qed.
+Print Assumptions fill_replaces_exactly_none.
+
+Theorem fill_keeps_structure : forall v0 sz t l out,
+  fillna_v v0 (TList sz None t) (VList l) = Ok (VList out) -> length out = length l.
+Proof. exact fillna_keeps_list_lengths. Qed.
+Print Assumptions fill_keeps_structure.
+
+(* all encodings of missing values have the value of the IndexedOptionArray64 they convert to *)
+Theorem negative_index_values_are_interchangeable : forall w ix c vs,
+  to_list c = Ok vs ->
+  to_list (IndexedOption w ix c) = to_list (IndexedOption I64 (map (fun i => if i <? 0 then -1 else i) ix) c).
+Proof. exact indexedoption_normalised. Qed.
+Print Assumptions negative_index_values_are_interchangeable.
+
+Theorem byte_mask_is_index : forall m vw c vs,
+  to_list c = Ok vs ->
+  to_list (ByteMasked m vw c) =
+  to_list (IndexedOption I64
+             (map (fun im : Z * Z => let (i, b) := im in if Bool.eqb (negb (b =? 0)) vw then i else -1)
+                  (zip (iota (zlen m)) m)) c).
+Proof. exact bytemasked_as_indexedoption. Qed.
+Print Assumptions byte_mask_is_index.
+
+Theorem unmasked_is_index : forall c vs,
+  to_list c = Ok vs -> zlen vs = clen c ->
+  to_list (Unmasked c) = to_list (IndexedOption I64 (iota (clen c)) c).
+Proof. exact unmasked_as_indexedoption. Qed.
+Print Assumptions unmasked_is_index.
